@@ -301,6 +301,18 @@ def judge(ctx, case, obs):
             for k, v in want_p.items():
                 if e["params"].get(k) != v:
                     bad("params-not-applied", f"{tool}: {e['shortname']} has {k}={e['params'].get(k)!r}, the step says {v!r}")
+            if tool == "unset" and len(vms) == 1:
+                # the removal policy of the manual unset step: the user's vm-specific unset_mode_<vm>, else the user's general
+                # unset_mode, else the step's own default `fi` (the suite-wide default `ri` would make the step a no-op) -
+                # for EVERY selected vm, whatever was decided for the vms before it
+                extra_p = case.get("extra", {})
+                want_mode = extra_p.get(f"unset_mode_{vms[0]}", extra_p.get("unset_mode", "fi"))
+                eff = e["params"].get(f"unset_mode_{vms[0]}", e["params"].get("unset_mode"))
+                ctx.count("oracle.unset-policy." + ("user-vm" if f"unset_mode_{vms[0]}" in extra_p else
+                                                     "user-general" if "unset_mode" in extra_p else "step-default"))
+                if eff != want_mode:
+                    bad("unset-policy-of-the-step-lost", f"unset: {e['shortname']} runs with unset mode {eff!r} for {vms[0]}, "
+                        f"the step says {want_mode!r} (command line: {extra_p})")
         if expected is not None:
             if sorted(got) != sorted(expected):
                 miss = sorted(set(expected) - set(got))
@@ -539,6 +551,14 @@ def gen_cases(rng, thorough):
                   "fail": {"kind": "status", "pos": 0, "status": "FAIL"}})
     cases.append({"chain": ["clean", "unset"], "vms": {"vm1": None}, "nets": ["net1"], "via": "manu",
                   "fail": {"kind": "start", "pos": 0}})
+    # the unset step decides its default removal policy per vm: an earlier vm with several variants, or with a policy of its
+    # own given by the user, must not change what the later vms get
+    cases.append({"chain": ["unset"], "vms": {"vm1": "", "vm3": VARIANTS["vm3"][0]}, "nets": rng.sample(["net1", "net2"], rng.choice([1, 2])),
+                  "extra": {}, "sched": None, "fail": None, "via": "manu"})
+    cases.append({"chain": ["unset"], "vms": {"vm2": VARIANTS["vm2"][0], "vm3": VARIANTS["vm3"][0]}, "nets": ["net1"],
+                  "extra": {"unset_mode_vm2": "ri"}, "sched": None, "fail": None, "via": rng.choice(["manu", "direct"])})
+    cases.append({"chain": ["unset"], "vms": {"vm1": VARIANTS["vm1"][0], "vm2": VARIANTS["vm2"][0]}, "nets": ["net2"],
+                  "extra": {"unset_mode": "ri"}, "sched": None, "fail": None, "via": "manu"})
     # regression of 3361dd0: chains that repeat a step (README: "adding multiple run steps throughout the setup chain")
     cases.append({"chain": ["noop", "noop"], "vms": {"vm1": None}, "nets": ["net1"], "via": "manu"})
     if thorough:
